@@ -1,5 +1,5 @@
 import Mathlib.Tactic.SplitIfs
-import Pycoin.Proofs.VMVerify2
+import Pycoin.Proofs.VMPushOnly
 import Pycoin.Proofs.VMItems
 /-!
 Scripts with an undecodable instruction (`Walkable` fails): evaluation fails on both sides — Core's loop stops at the
